@@ -16,7 +16,7 @@ func init() {
 		RealParts:  []string{"neat/genetics population, species, epoch executors, mutators and their innovation lookup", "Population counters and innovation list (real), read through the public Innovations() accessor"},
 		StubParts:  []string{"fitness assignment", "reference innovation registry for the twin-mutation probes", "goroutine choice for parallel-executor worlds (function check only there)"},
 		Assumes:    []string{"'identical innovations get identical numbers' is demanded of the sequential executor only, as the property says"},
-		ProbeNames: []string{"probe.new_innovation_generation", "probe.same_link_innovation_twice", "probe.same_split_twice", "probe.twin.addnode_reused", "probe.twin.addlink_reused", "probe.nearmiss.not_reused", "probe.random_world", "probe.readback_world", "probe.checkpoint_restore"},
+		ProbeNames: []string{"probe.new_innovation_generation", "probe.same_link_innovation_twice", "probe.same_split_twice", "probe.twin.addnode_reused", "probe.twin.addlink_reused", "probe.nearmiss.not_reused", "probe.random_world", "probe.readback_world", "probe.modular_control_ids_permuted", "probe.modular_structural_mutation", "probe.checkpoint_restore"},
 	})
 }
 
@@ -111,6 +111,10 @@ func generationConverse(c *RunCtx, w *World, prevMaxInnov int64, prevMaxNode int
 
 func scenarioC03(c *RunCtx) {
 	t := c.T
+	if t.Chance("modularStart", 1, 10) {
+		scenarioC03Modular(c)
+		return
+	}
 	maxPop, maxEpochs := 30, 12
 	if c.Thorough {
 		maxPop, maxEpochs = 70, 50
@@ -342,4 +346,110 @@ func geneNums(gs []GeneRec) []int64 {
 		r = append(r, g.Innov)
 	}
 	return r
+}
+
+// scenarioC03Modular: "for all start genomes" includes modular ones. A population spawned from a modular start genome
+// whose control nodes carry ids in any order must issue node ids and innovation numbers above everything any of its
+// genomes holds, control nodes and control genes included. Structural mutations are applied one by one with the
+// population as registry and id source (no crossover: mating of modular genomes is outside the listed properties).
+func scenarioC03Modular(c *RunCtx) {
+	t := c.T
+	QuietLogs()
+	SeedLibrary(t)
+	g := BuildModularGenome(t)
+	// control-node ids in another order than the control genes (ids stay unique and above the ordinary nodes' ids)
+	if n := len(g.ControlGenes); n >= 2 {
+		ids := make([]int, n)
+		for i, cg := range g.ControlGenes {
+			ids[i] = cg.ControlNode.Id
+		}
+		for i := n - 1; i > 0; i-- {
+			j := t.Draw("modular.permute", i+1)
+			ids[i], ids[j] = ids[j], ids[i]
+		}
+		gap := t.Draw("modular.gap", 3) // the largest id may stand out by more than one
+		maxAt := 0
+		for i := range ids {
+			if ids[i] > ids[maxAt] {
+				maxAt = i
+			}
+		}
+		ids[maxAt] += gap
+		for i, cg := range g.ControlGenes {
+			cg.ControlNode.Id = ids[i]
+		}
+		c.Count("probe.modular_control_ids_permuted")
+	}
+	opts := DrawOptions(t, OptProfile{MinPop: 3, MaxPop: 8, Parallel: 0, Structural: 1})
+	c.Sample = "modular start genome: " + Canon(g).Pretty()
+	var pop *genetics.Population
+	var err error
+	c.LibSoft("NewPopulation", func() { pop, err = genetics.NewPopulation(g, opts) })
+	if err != nil || pop == nil {
+		c.Skip("constructor-error")
+	}
+	held := func() (maxNode int, maxInnov int64) {
+		for _, o := range pop.Organisms {
+			for _, n := range o.Genotype.Nodes {
+				if n.Id > maxNode {
+					maxNode = n.Id
+				}
+			}
+			for _, gn := range o.Genotype.Genes {
+				if gn.InnovationNum > maxInnov {
+					maxInnov = gn.InnovationNum
+				}
+			}
+			for _, cg := range o.Genotype.ControlGenes {
+				if cg.ControlNode.Id > maxNode {
+					maxNode = cg.ControlNode.Id
+				}
+				if cg.InnovationNum > maxInnov {
+					maxInnov = cg.InnovationNum
+				}
+			}
+		}
+		return
+	}
+	// everything issued later must lie above what the population held when it was spawned (a structural innovation that
+	// repeats a recorded one legitimately reuses ids issued since then, never older ones)
+	maxNode, maxInnov := held()
+	for k := t.Range("modular.mutations", 1, 6); k > 0; k-- {
+		o := pop.Organisms[t.Draw("modular.org", len(pop.Organisms))]
+		before := Canon(o.Genotype)
+		seedLib(int64(t.Draw("modular.libseed", 1<<31)))
+		var ok bool
+		var merr error
+		kind := "add-node"
+		if t.Chance("modular.addlink", 1, 3) {
+			kind = "add-link"
+			c.LibSoft(kind, func() { ok, merr = genetics.VerifMutateAddLink(o.Genotype, pop, 1, opts) })
+		} else {
+			c.LibSoft(kind, func() { ok, merr = genetics.VerifMutateAddNode(o.Genotype, pop, pop, opts) })
+		}
+		c.Steps++
+		if merr != nil || !ok {
+			continue
+		}
+		c.Count("probe.modular_structural_mutation")
+		had := map[int]bool{}
+		for _, n := range before.Nodes {
+			had[n.Id] = true
+		}
+		hadInnov := map[int64]bool{}
+		for _, gn := range before.Genes {
+			hadInnov[gn.Innov] = true
+		}
+		for _, n := range o.Genotype.Nodes {
+			if !had[n.Id] && n.Id <= maxNode {
+				c.Fail("fresh-node-id-not-larger", "population spawned from a modular start genome: %s gave the new node the id %d, the population held the id %d when it was spawned (control nodes included)\nstart genome: %s", kind, n.Id, maxNode, Canon(g).Pretty())
+			}
+		}
+		for _, gn := range o.Genotype.Genes {
+			if !hadInnov[gn.InnovationNum] && gn.InnovationNum <= maxInnov {
+				c.Fail("fresh-innovation-not-larger", "population spawned from a modular start genome: %s gave the new gene the innovation number %d, the population held %d when it was spawned (control genes included)\nstart genome: %s", kind, gn.InnovationNum, maxInnov, Canon(g).Pretty())
+			}
+		}
+	}
+	c.State(Canon(g).ShapeHash())
 }
